@@ -25,6 +25,7 @@ class Target:
         self.bs = blocksize
         self.nblocks = nblocks
         self.vendor, self.product, self.rev = vendor, product, rev
+        self.inquiry_length = 96  # 36 = the minimum standard INQUIRY data
         self.store = {}
         self.log = []
         self.anomalies = []
@@ -43,7 +44,7 @@ class Target:
         f = D.FORMATS["inquiry.standard"]
         v = {k: 0 for k in f.st.names()}
         v.update({"peripheral_qualifier": self.qualifier, "peripheral_device_type": self.devtype, "version": 6, "response_data_format": 2,
-                  "additional_length": 91, "t10_vendor_identification": self.vendor, "product_identification": self.product,
+                  "additional_length": self.inquiry_length - 5, "_total": self.inquiry_length, "t10_vendor_identification": self.vendor, "product_identification": self.product,
                   "product_revision_level": self.rev, "cmdque": 1})
         return f.encode(v)
 
